@@ -1556,7 +1556,7 @@ func c12Run(r *mon.Run) {
 		"resample/xs-inplace", "resample/ws-inplace", "resample/both-inplace", "resample/assign-same-length", "resample/assign-other-length",
 		"resample/on-copy", "resample/on-same-struct", "resample/seen-through-shared-arrays", "resample/total-weight-changed",
 		"resample/weighted<->unweighted", "reparam/zero-bandwidth-after-resample")
-	r.Gate(gates...)
+	r.Gate(append(gates, "single-valued-sample-beyond-2^53")...)
 
 	const npts, nivs = 60, 6
 
@@ -1794,6 +1794,25 @@ func c12Run(r *mon.Run) {
 			c12Judge(w, c)
 			w.Distinct(c12Hash(c))
 		}
+	})
+
+	// 3b. single-valued samples far from the origin (2^53 .. 1e19), all
+	// kernels: Bounds must return (it used to loop for ever there, D22) and
+	// hold the mass; bandwidths well above the spacing of floats at x
+	r.Parallel("huge-constant", r.Pick(60, 600), func(w *mon.W, i int) {
+		rng := w.Rng
+		x0 := rng.Sign() * rng.LogUniform(0x1p53, 1e19)
+		n := rng.Pick(1, 1, 2, 5)
+		c := c12Case{Op: "kde", Kernel: i % 3}
+		for j := 0; j < int(n); j++ {
+			c.Xs = append(c.Xs, mon.F(x0))
+		}
+		h := math.Abs(x0) * rng.LogUniform(1e-9, 1e-2)
+		c.H = mon.F(h)
+		w.Hit("single-valued-sample-beyond-2^53")
+		c12Points(rng, &c, h, 30, 4)
+		c12Judge(w, c)
+		w.Distinct(c12Hash(c))
 	})
 
 	// 4. the bandwidth rules on Samples
